@@ -17,7 +17,11 @@ import (
 	"math"
 	"strconv"
 	"strings"
+	"sync"
+	"time"
 
+	"rare/pkg/expressions"
+	"rare/pkg/expressions/stdlib"
 	"rare/pkg/expressions/stdmath"
 	. "verifh/lib"
 )
@@ -52,6 +56,9 @@ type c19Out struct {
 	Paired   string `json:"constant_free_formula,omitempty"`
 	ValsOK   bool   `json:"values_agree"`
 	ValsNote string `json:"values_note,omitempty"`
+	Template string `json:"template,omitempty"`         // the {! ..} expression compiled once for the shared-object runs
+	SeqSteps int    `json:"sequence_steps,omitempty"`   // evaluations of the ONE compiled formula over a sequence of bindings
+	Conc     string `json:"concurrent,omitempty"`       // goroutines x evaluations of the ONE compiled formula at once
 }
 type c19Desc struct {
 	Input c19In  `json:"input"`
@@ -318,7 +325,7 @@ func sameBits(a, b float64) bool {
 }
 
 // ---------------------------------------------------------------- bindings
-var pool = []float64{0, 1, -1, 2, 0.5, -2.5, 3, 1e300, 7, -3, 64, 1e-300, math.Copysign(0, -1), 100, 63, 5, math.Inf(1), -1e300, 0.1, 4}
+var pool = []float64{0, 1, -1, 2, 0.5, -2.5, 3, 1e300, 7, -3, 64, 1e-300, math.Copysign(0, -1), 100, 63, 5, math.Inf(1), -1e300, 0.1, 4, 4e18, -4e18}
 
 func hashStr(s string) int {
 	h := uint32(2166136261)
@@ -449,12 +456,328 @@ func constantFree(ps []piece, unaryAt []bool) (out []piece, consts map[string]fl
 	return out, consts, true
 }
 
+// ---------------------------------------------------------------- one compiled formula, many evaluations
+// rare compiles a formula once and evaluates it for every match, from all worker goroutines.
+// The value on a binding must not depend on earlier evaluations (a memo, a scratch slice kept in
+// the compiled object) nor on evaluations running at the same time. Reference for every single
+// evaluation: the reference evaluator on the tree dumped from the fresh compile (the tree Coq
+// compares with the model), at that binding alone.
+
+type kbCtx struct {
+	names map[string]string
+	idx   map[int]string
+}
+
+func (c *kbCtx) GetMatch(i int) string { return c.idx[i] }
+func (c *kbCtx) GetKey(k string) string { return c.names[k] }
+
+var _ expressions.KeyBuilderContext = &kbCtx{}
+
+func (t *tree) vars(names map[string]bool, idx map[int]bool) {
+	switch t.kind {
+	case "named":
+		names[t.name] = true
+	case "idx":
+		idx[int(t.idx)] = true
+	}
+	for _, k := range t.kids {
+		k.vars(names, idx)
+	}
+}
+
+func (t *tree) hasOp() bool { return t.kind == "un" || t.kind == "bin" }
+
+// a binding: value of every variable, or missing (the {! ..} context has no such key; the bare
+// stdmath context answers 0 like SimpleContext)
+type binding struct {
+	label   string
+	val     func(string) float64
+	missing func(string) bool
+}
+
+func never(string) bool { return false }
+
+func bindings() []binding {
+	nan := func(string) float64 { return math.NaN() }
+	inf := func(s string) float64 { return math.Inf(1 - 2*(hashStr(s)%2)) }
+	bs := []binding{
+		{"empty", profile(0), func(string) bool { return true }}, // the all-empty, probe-like context
+		{"p1", profile(1), never}, {"p2", profile(2), never}, {"p3", profile(3), never},
+		{"p4", profile(4), never}, {"p5", profile(5), never}, {"p6", profile(6), never}, {"p7", profile(7), never},
+		{"nan", nan, never}, {"inf", inf, never},
+		{"missing-some", profile(3), func(s string) bool { return hashStr(s)%2 == 0 }},
+		{"missing-other", profile(4), func(s string) bool { return hashStr(s)%2 == 1 }},
+	}
+	return bs
+}
+
+var allBindings = bindings()
+
+func (b binding) math() *bindCtx {
+	return &bindCtx{def: func(s string) float64 {
+		if b.missing(s) {
+			return 0
+		}
+		return b.val(s)
+	}}
+}
+
+func (b binding) kb(names map[string]bool, idx map[int]bool) (*kbCtx, bool) {
+	c := &kbCtx{names: map[string]string{}, idx: map[int]string{}}
+	bad := false
+	for n := range names {
+		if b.missing(n) {
+			bad = true
+			continue
+		}
+		c.names[n] = strconv.FormatFloat(b.val(n), 'g', -1, 64)
+	}
+	for i := range idx {
+		k := "#" + strconv.Itoa(i)
+		if b.missing(k) {
+			bad = true
+			continue
+		}
+		c.idx[i] = strconv.FormatFloat(b.val(k), 'g', -1, 64)
+	}
+	return c, bad
+}
+
+// the order in which the bindings are presented: optionally the empty context first, every binding,
+// then repeats (same binding twice in a row), a reversed pass and the empty context in the middle
+func sequenceOrder(f string) []int {
+	h := hashStr(f)
+	n := len(allBindings)
+	var order []int
+	if h%2 == 0 {
+		order = append(order, 0)
+	}
+	for i := 0; i < n; i++ {
+		order = append(order, 1+(i+h)%(n-1))
+	}
+	order = append(order, 2, 2, 0, 1+h%(n-1), 1+h%(n-1))
+	for i := n - 1; i >= 1; i -= 2 {
+		order = append(order, i)
+	}
+	order = append(order, 0, 3, 1)
+	return order
+}
+
+func kbTemplate(f string) (string, bool) {
+	if strings.ContainsAny(f, "{}\"\\\t") {
+		return "", false
+	}
+	// kfMath concatenates its arguments; blanks inside [..] would be lost, so the formula is passed quoted
+	return "{! \"" + f + "\"}", true
+}
+
+const concEvals = 800
+
+func sharedObjectRuns(f string, ex stdmath.Expr, t *tree, out *c19Out, tags []string) []string {
+	fail := func(format string, a ...any) {
+		if out.ValsOK {
+			out.ValsOK, out.ValsNote = false, fmt.Sprintf(format, a...)
+		}
+	}
+	names, idx := map[string]bool{}, map[int]bool{}
+	t.vars(names, idx)
+	var kb *expressions.CompiledKeyBuilder
+	if tpl, ok := kbTemplate(f); ok {
+		k, errs := stdlib.NewStdKeyBuilder().Compile(tpl)
+		if errs != nil || k == nil {
+			fail("stdmath.Compile accepts the formula but the expression %s does not compile: %v", tpl, errs)
+		} else {
+			kb, out.Template = k, tpl
+		}
+	}
+	// expected values, each from its binding alone
+	type want struct {
+		mctx *bindCtx
+		v    float64
+		kctx *kbCtx
+		s    string
+	}
+	wants := make([]want, len(allBindings))
+	for i, b := range allBindings {
+		w := want{mctx: b.math()}
+		st := &refState{}
+		w.v = st.eval(t, w.mctx)
+		if st.unknown {
+			fail("reference evaluator: unknown operator in the dumped tree")
+			return tags
+		}
+		var bad bool
+		w.kctx, bad = b.kb(names, idx)
+		if bad {
+			w.s = stdlib.ErrorNum
+		} else {
+			st2 := &refState{}
+			w.s = strconv.FormatFloat(st2.eval(t, b.math()), 'f', -1, 64)
+		}
+		wants[i] = w
+	}
+	// (a) sequence
+	order := sequenceOrder(f)
+	shared := &bindCtx{} // ONE context object whose content changes from step to step (rare pools its contexts)
+	for step, bi := range order {
+		w := wants[bi]
+		shared.def = w.mctx.def
+		if v, p := evalImpl(ex, shared); p || !sameBits(v, w.v) {
+			fail("sequence step %d (binding %s, after %d earlier evaluations of the same compiled formula): Eval=%v panic=%v, value for this binding alone=%v",
+				step, allBindings[bi].label, step, v, p, w.v)
+			break
+		}
+		if kb != nil {
+			s, p := buildKey(kb, w.kctx)
+			if p || s != w.s {
+				fail("sequence step %d (binding %s) through %s: BuildKey=%q panic=%v, value for this binding alone=%q", step, allBindings[bi].label, out.Template, s, p, w.s)
+				break
+			}
+		}
+	}
+	out.SeqSteps = len(order)
+	tags = append(tags, "sequence")
+	// (b) concurrent: only formulas that compute something from at least one variable
+	if len(names)+len(idx) == 0 || !t.hasOp() {
+		return tags
+	}
+	if len(tags) > 0 && strings.HasPrefix(tags[0], "exhaustive") && hashStr(f)%2 == 1 {
+		return tags // quick-tier budget: every second formula of the exhaustive scope
+	}
+	g := 4 + hashStr(f)%5
+	run := func(what string, n int, one func(w want) (bool, string)) {
+		var wg sync.WaitGroup
+		start := make(chan struct{})
+		notes := make([]string, g)
+		for k := 0; k < g; k++ {
+			wg.Add(1)
+			go func(k int) {
+				defer wg.Done()
+				defer func() {
+					if r := recover(); r != nil {
+						notes[k] = fmt.Sprintf("panic: %v", r)
+					}
+				}()
+				<-start
+				for i := 0; i < n; i++ {
+					// mostly its own binding; now and then another one (incl. the empty and the missing ones)
+					bi := 1 + (k+hashStr(f))%(len(wants)-1)
+					if i%16 == 15 {
+						bi = (k + i/16) % len(wants)
+					}
+					if ok, note := one(wants[bi]); !ok {
+						notes[k] = fmt.Sprintf("evaluation %d, binding %s: %s", i, allBindings[bi].label, note)
+						return
+					}
+				}
+			}(k)
+		}
+		close(start)
+		wg.Wait()
+		for k, nt := range notes {
+			if nt != "" {
+				fail("concurrent %s, goroutine %d of %d sharing the one compiled formula: %s", what, k, g, nt)
+				break
+			}
+		}
+	}
+	run("Eval", concEvals, func(w want) (bool, string) {
+		v := ex.Eval(w.mctx)
+		if !sameBits(v, w.v) {
+			return false, fmt.Sprintf("Eval=%v, value for this binding alone=%v", v, w.v)
+		}
+		return true, ""
+	})
+	out.Conc = fmt.Sprintf("%d goroutines x %d Eval", g, concEvals)
+	if kb != nil {
+		run("BuildKey", concEvals/2, func(w want) (bool, string) {
+			s := kb.BuildKey(w.kctx)
+			if s != w.s {
+				return false, fmt.Sprintf("BuildKey=%q, value for this binding alone=%q", s, w.s)
+			}
+			return true, ""
+		})
+		out.Conc += fmt.Sprintf(" + %d x %d BuildKey of %s", g, concEvals/2, out.Template)
+	}
+	return append(tags, "concurrent")
+}
+
+func buildKey(kb *expressions.CompiledKeyBuilder, c expressions.KeyBuilderContext) (s string, panicked bool) {
+	defer func() {
+		if r := recover(); r != nil {
+			s, panicked = fmt.Sprint(r), true
+		}
+	}()
+	return kb.BuildKey(c), false
+}
+
 // ---------------------------------------------------------------- one case
+// Every case runs under a time limit: a panic or a hang of one evaluation is that case's outcome.
+const caseTimeout = 4 * time.Second
+
+var hangs int
+var hangOps map[string]bool // operators common to every formula that hung so far
+
+func opsOf(ps []piece) map[string]bool {
+	m := map[string]bool{}
+	for _, p := range ps {
+		if p.K == pOp || p.K == pFn || p.K == pMinus || p.K == pBang {
+			m[p.T] = true
+		}
+	}
+	return m
+}
+
+// after a few hangs, formulas that contain an operator common to all hung formulas are not evaluated
+// any more (each hung evaluation keeps a goroutine spinning and costs the full time limit)
+func skipAfterHangs(ps []piece) bool {
+	if hangs < 4 {
+		return false
+	}
+	if hangs >= 40 {
+		return true
+	}
+	for o := range opsOf(ps) {
+		if hangOps[o] {
+			return true
+		}
+	}
+	return false
+}
+
+func c19Case(ps []piece, tags []string) Case {
+	var res Case
+	outcome, pv := Guarded(caseTimeout, func() { res = c19CaseInner(ps, append([]string(nil), tags...)) })
+	if outcome == "ok" {
+		return res
+	}
+	f := join(ps)
+	out := c19Out{Formula: f, Outcome: outcome, ValsOK: false}
+	if outcome == "panic" {
+		out.Err = fmt.Sprint(pv)
+	} else {
+		out.Err = fmt.Sprintf("an evaluation of this formula did not return within %v", caseTimeout)
+		hangs++
+		mine := opsOf(ps)
+		if hangOps == nil {
+			hangOps = mine
+		} else {
+			for o := range hangOps {
+				if !mine[o] {
+					delete(hangOps, o)
+				}
+			}
+		}
+	}
+	tags = append(tags, "impl:"+outcome)
+	return Case{Coq: fmt.Sprintf("cPanic %s", HS(f)), Desc: c19Desc{Input: c19In{Pieces: ps}, Impl: out}, Key: f, Nontrivial: true, Tags: tags}
+}
+
 func hasIntOp(f string) bool {
 	return strings.Contains(f, "%") || strings.Contains(f, "<<") || strings.Contains(f, ">>")
 }
 
-func c19Case(ps []piece, tags []string) Case {
+func c19CaseInner(ps []piece, tags []string) Case {
 	f := join(ps)
 	out := c19Out{Formula: f, ValsOK: true}
 	ex, outcome, errText := compileImpl(f)
@@ -524,6 +847,10 @@ func c19Case(ps []piece, tags []string) Case {
 	}
 	if intOp && (fault || !paired) {
 		tags = append(tags, "kf:C19-int-ops-panic")
+	}
+	// ONE compiled object, many evaluations: sequences of bindings, then several goroutines at once
+	if outcome == "ok" {
+		tags = sharedObjectRuns(f, ex, t, &out, tags)
 	}
 	if paired {
 		tags = append(tags, "values-checked")
@@ -813,6 +1140,9 @@ func litCases() [][]piece {
 func gen(r *Rng, n int, tier string) []Case {
 	var cases []Case
 	add := func(ps []piece, tag string) {
+		if skipAfterHangs(ps) {
+			return
+		}
 		c := c19Case(ps, []string{tag})
 		cases = append(cases, c)
 		// the constant-free form is a formula of its own (its tree contains no folded constant)
@@ -869,10 +1199,15 @@ func main() {
 			"fixed boundary formulas and every literal format; ALL sequences of length <= 4 (quick) / 5 (thorough) over the 12-piece alphabet {2 x [0] + * ^ - <= && ( ) abs}; " +
 			"random sequences up to 25 pieces over all 17 operators, all unary operators and all literal formats (well-formed and malformed streams); " +
 			"random trees (depth <= 5) printed with minimal and with redundant parentheses/blanks and implied multiplication; each formula is also run with its constants replaced by variables; " +
-			"values at 6 bindings (all 0, negatives, small integers, and three mixes incl. 0.5, -2.5, 1e300, 1e-300, -0, +Inf). " +
+			"values at 6 bindings (all 0, negatives, small integers, and three mixes incl. 0.5, -2.5, 1e300, 1e-300, -0, +Inf, +-4e18). " +
+			"Every formula that compiles is also compiled ONCE (stdmath.Compile and the expression {! \"formula\"} through stdlib) and that one object is evaluated (a) over a SEQUENCE of about 27 bindings " +
+			"(optionally the all-empty probe-like context first, 7 value mixes, all NaN, +-Inf, two bindings with missing variables, immediate repeats, a reversed pass, the empty context again; the bare context is one object whose content changes) " +
+			"and (b) CONCURRENTLY from 4-8 goroutines behind a start barrier, 800 Eval + 400 BuildKey each over different bindings (formulas with a variable and an operator; every second one of the exhaustive scope); " +
+			"each single result must equal the reference value of its own binding alone (tree of the fresh compile; <BAD-TYPE> when a variable is missing). " +
+			"Each case runs under a 4 s limit: a panic or hang is recorded as that case's outcome; after 4 hangs formulas sharing an operator with all hung ones are skipped. " +
 			"Distinct = distinct formula text; non-trivial = rejected, or uses a group/function/unary/non-decimal literal, or at least two binary operators.",
 		Gen:    gen,
 		Replay: replay,
-		Shard:  1500,
+		Shard:  2000,
 	})
 }
